@@ -1,0 +1,9 @@
+//go:build verif
+
+// Verification hooks (add-only, compiled only with -tags verif). They expose
+// the unexported trailer removal to the out-of-tree correspondence harness
+// in /verif (property C11); no existing behaviour is changed.
+package signxap
+
+// VerifRemoveSignature calls removeSignature.
+func VerifRemoveSignature(cd []byte) []byte { return removeSignature(cd) }
